@@ -294,6 +294,51 @@ def unit_eval_frame(ctx):
                            replay="c02.frame", info={"structural": True, "decision": decision, "metrics": ",".join(names)})
 
 
+
+def unit_matched_pair_ctor(ctx):
+    """MatchedInstancePair.__init__: the matched instances are exactly the labels present in BOTH maps, the missed reference /
+    prediction labels exactly those present in one map only (this is what tp, fp and fn count)."""
+    from pyvc.npmodel import Space, base_array
+    eng = ctx.engine()
+    fn = PP + "MatchedInstancePair.__init__"
+
+    def mk(e):
+        sp = Space("S")
+        P, Rr = base_array(e, "P", "uint8", sp), base_array(e, "R", "uint8", sp)
+        return [P, Rr], {}, {}
+
+    def target(P, Rr):
+        return eng.call(eng.resolve(PP + "MatchedInstancePair"), [P, Rr], {})
+    paths = eng.run(target, mk)
+    ctx.expect("MatchedInstancePair.__init__: a returning path", any(p.kind == "return" for p in paths))
+    t = z3.Int("lbl_ix")
+    for pi, p in enumerate(paths):
+        nm = "processing_pair.MatchedInstancePair.__init__"
+        if p.kind != "return":
+            ctx.oblige(f"{nm}/no-exception({p.exc.name() if p.exc else p.kind})#p{pi}", p.pc, z3.BoolVal(False), func=fn, replay="c02.matched_ctor")
+            continue
+        o = p.value
+        pl, rl = o.attrs["_pred_labels"], o.attrs["_ref_labels"]
+        ok = all(hasattr(x, "unique_of") for x in (pl, rl))
+        _, _, up, _, idxp, npn = pl.unique_of if ok else (None,) * 6
+        _, _, ur, _, idxr, nrn = rl.unique_of if ok else (None,) * 6
+        in_ref = lambda v: z3.And(0 <= idxr(v), idxr(v) < nrn, ur(idxr(v)) == v)
+        in_pred = lambda v: z3.And(0 <= idxp(v), idxp(v) < npn, up(idxp(v)) == v)
+        for attr, base_labels, u_, n_, keep in (("matched_instances", pl, up, npn, lambda v: in_ref(v)), ("missed_prediction_labels", pl, up, npn, lambda v: z3.Not(in_ref(v))),
+                                                ("missed_reference_labels", rl, ur, nrn, lambda v: z3.Not(in_pred(v)))):
+            F = o.attrs.get(attr)
+            good = ok and isinstance(F, SymSeq) and getattr(F, "base", None) is base_labels and getattr(F, "cond", None) is not None
+            if not good:
+                ctx.oblige(f"{nm}/post({attr} is a selection of the label list of its own map)#p{pi}", [], z3.BoolVal(False), func=fn, replay="c02.matched_ctor", info={"structural": True})
+                continue
+            iv, cond = F.cond
+            kept = z3.substitute(cond, (iv, t))
+            ctx.oblige(f"{nm}/post({attr}: a label is listed iff it is " + {"matched_instances": "present in both maps", "missed_prediction_labels": "a prediction label absent from the reference",
+                       "missed_reference_labels": "a reference label absent from the prediction"}[attr] + f")#p{pi}", p.pc + [0 <= t, t < n_], kept == keep(u_(t)), func=fn, replay="c02.matched_ctor")
+        if pi == 0:
+            ctx.canary(f"{nm}#p{pi}", p.pc, func=fn)
+
+
 def build(ctx):
     ctx.trust("np.average(list)*len == sum of the elements; np.std default = population standard deviation (uninterpreted np_pstd)",
               "contract of _evaluate_instance (dict with exactly the evaluated metrics, value a function of the instance) - proved in C06/C10 units",
@@ -304,6 +349,7 @@ def build(ctx):
         ctx.unit(f"evaluate_matched_instance[{dec}]", lambda dec=dec: unit_eval_matched(ctx, dec, ["DSC", "IOU", "ASSD"]))
     ctx.unit("evaluate_matched_instance[RVD|all]", lambda: unit_eval_matched(ctx, "IOU", ["DSC", "IOU", "ASSD", "RVD"]))
     ctx.unit("evaluate_matched_instance[frame]", lambda: unit_eval_frame(ctx))
+    ctx.unit("MatchedInstancePair.__init__", lambda: unit_matched_pair_ctor(ctx))
     # tp/fp/fn count label-matched instances: "matched" means what the relabelling after matching made equal (C04), regenerated here
     include_stage(ctx, "C04")
     # the decision metric / threshold the evaluation receives is the configured one, per call and per group (C12), regenerated here
@@ -316,6 +362,8 @@ def concretise(ctx, o, r):
         return stage_concretise(ctx, o, r)
     m = r.get("model") or {}
     gi = lambda k, d=0: model_int(m.get(k, d))
+    if o.replay == "c02.matched_ctor":
+        return {}
     if o.replay == "c02.frame":
         return {"decision": o.info.get("decision"), "metrics": o.info.get("metrics")}
     if o.replay == "c02.result":
